@@ -106,6 +106,8 @@ class T:
             return False
         if self.sort == BOOL and _decide_hook[0] is not None:
             return _decide_hook[0](self)
+        if self.sort != BOOL and _decide_hook[0] is not None:
+            return _decide_hook[0](ne(self, const(0, self.sort)))
         raise TypeError('symbolic term used as python bool: %s' % show(self, 200))
 
     def __float__(self):
